@@ -84,9 +84,14 @@ impl<'a> Lexer<'a> {
 
     pub(crate) fn next_token(&mut self) -> Lexeme {
         let start_pos = self.pos;
-        let first = self.bump().unwrap_or(EOF);
+        // only the end of the input is EOF; a NUL character in the text is an (invalid) ident
+        let Some(first) = self.bump() else {
+            return Lexeme {
+                len: 0,
+                kind: Kind::Eof,
+            };
+        };
         let kind = match first {
-            EOF => Kind::Eof,
             _ if self.in_path.in_path() => self.path(),
             byte if is_ascii_whitespace(byte) => self.whitespace(),
             b'#' => self.comment(),
